@@ -3,7 +3,7 @@
    pointers) simulates the functional removal. *)
 From Coq Require Import ZArith List Bool Lia ZifyBool Permutation.
 From Zix Require Import AvlSpec AvlModel AvlProofs AvlProofsIter AvlProofsRemove AvlProofsState
-  AvlHeapModel AvlHeapProofsBase AvlHeapProofsRot.
+  AvlHeapModel AvlHeapProofsBase AvlHeapProofsRot AvlHeapProofsIter.
 Import ListNotations.
 Local Open Scope Z_scope.
 
@@ -272,4 +272,335 @@ Proof.
         intros j Hj. rewrite Fr'.
         -- rewrite Fr by (apply Frame1; assumption). apply F1. intros ->. apply Hj. in_tauto.
         -- rewrite Eids. apply Frame1. assumption.
+Qed.
+
+(* ------------------------------------------------------------------ the heap side: unlinking *)
+(* NoDup of a sub-multiset of the segments of a NoDup list *)
+Ltac nd_sub ND :=
+  apply (proj2 (NoDup_count_occ Z.eq_dec _)); intros x;
+  let X := fresh "X" in
+  pose proof (nodup_occ _ ND x) as X; unfold occ in X;
+  repeat (rewrite ?count_occ_app in X; cbn [count_occ] in X);
+  repeat (rewrite ?count_occ_app; cbn [count_occ]);
+  repeat match goal with
+         | |- context [Z.eq_dec ?a ?b] => destruct (Z.eq_dec a b)
+         | H : context [Z.eq_dec ?a ?b] |- _ => destruct (Z.eq_dec a b)
+         end; lia.
+
+Lemma up_del_perm : forall c t hc lg, Permutation (ids (fst (fst (up_del c t hc lg)))) (ids t ++ cids c).
+Proof.
+  induction c as [|i d b r c IH|i d b l c IH]; intros t hc lg; cbn [up_del cids].
+  - cbn [fst]. rewrite app_nil_r. apply Permutation_refl.
+  - pose proof (retrace_del_elems (N i d b t r) (- hc)) as E2.
+    destruct (retrace_del (N i d b t r) (- hc)) as [[t' hc'] lg']. cbn [fst] in E2.
+    assert (E3 : ids t' = ids (N i d b t r)) by (unfold ids; rewrite E2; reflexivity). rewrite ids_N in E3.
+    eapply Permutation_trans; [apply IH|]. rewrite E3. rewrite <- app_assoc. reflexivity.
+  - pose proof (retrace_del_elems (N i d b l t) hc) as E2.
+    destruct (retrace_del (N i d b l t) hc) as [[t' hc'] lg']. cbn [fst] in E2.
+    assert (E3 : ids t' = ids (N i d b l t)) by (unfold ids; rewrite E2; reflexivity). rewrite ids_N in E3.
+    eapply Permutation_trans; [apply IH|]. rewrite E3. rewrite <- app_assoc.
+    change (ids l ++ (i :: ids t) ++ cids c) with (ids l ++ ((i :: ids t) ++ cids c)).
+    eapply Permutation_trans; [apply Permutation_app_swap_app|]. cbn [app].
+    apply (Permutation_middle (ids t) (ids l ++ cids c) i).
+Qed.
+
+Lemma avlc_capp : forall c1 c2 u,
+  avlc (capp c1 c2) (height u) <-> avlc c1 (height u) /\ avlc c2 (height (plug c1 u)).
+Proof.
+  induction c1 as [|i d b r c IH|i d b l c IH]; intros c2 u; cbn [capp avlc plug].
+  - tauto.
+  - specialize (IH c2 (N i d b u r)). cbn [height] in IH. rewrite IH. tauto.
+  - specialize (IH c2 (N i d b l u)). cbn [height] in IH. rewrite IH. tauto.
+Qed.
+
+Lemma cids_capp : forall c1 c2, cids (capp c1 c2) = cids c1 ++ cids c2.
+Proof.
+  induction c1 as [|i d b r c IH|i d b l c IH]; intros c2; cbn [capp cids]; [reflexivity| |];
+    rewrite IH; cbn [app]; rewrite app_assoc; reflexivity.
+Qed.
+
+Lemma clen_capp : forall c1 c2, clen (capp c1 c2) = (clen c1 + clen c2)%nat.
+Proof. induction c1 as [|i d b r c IH|i d b l c IH]; intros c2; cbn [capp clen]; [reflexivity| |]; rewrite IH; reflexivity. Qed.
+
+Lemma leftmost_spine : forall cs u, spine cs -> u <> E -> leftmost (plug cs u) = leftmost u.
+Proof.
+  induction cs as [|k dk bk rk cs IH|k dk bk lk cs IH]; intros u S NE; cbn [plug spine] in *; [reflexivity| |contradiction].
+  rewrite IH by (assumption || discriminate). cbn [leftmost]. destruct u; [congruence|reflexivity].
+Qed.
+
+(* the child link of the node above the hole *)
+Lemma child_link : forall h c n g, repc h c (Some n) -> ~ In n (cids c) -> ctx_id c = Some g ->
+  ptr_is (left h g) n = match c with CL _ _ _ _ _ => true | _ => false end.
+Proof.
+  intros h c n g RC NI Eg. destruct c as [|g' d b r c|g' d b l c]; cbn [ctx_id repc cids] in *; [discriminate| |];
+    inversion Eg; subst g'; destruct RC as (Hg & _); unfold left; rewrite Hg; cbn [nleft].
+  - apply ptr_is_refl.
+  - apply ptr_is_false. intros X. apply root_id_in in X. apply NI. right. apply in_or_app. left. assumption.
+Qed.
+
+Lemma repc_set_hole : forall h c n v g, repc h c (Some n) -> ~ In n (cids c) -> NoDup (cids c) -> ctx_id c = Some g ->
+  let h1 := if ptr_is (left h g) n then set_left h g v else set_right h g v in
+  repc h1 c v /\ (forall j, j <> g -> hget h1 j = hget h j).
+Proof.
+  intros h c n v g RC NI ND Eg. rewrite (child_link h c n g RC NI Eg).
+  destruct c as [|g' d b r c|g' d b l c]; cbn [ctx_id repc cids] in *; [discriminate| |];
+    inversion Eg; subst g'; destruct RC as (Hg & R1 & RC); inversion ND as [|? ? Ng ND']; subst; cbn zeta.
+  - split.
+    + split; [|split].
+      * rewrite hget_set_left. eqb_simp. rewrite Hg. reflexivity.
+      * eapply rep_ext; [|exact R1]. intros j Hj. rewrite hget_set_left.
+        assert (j <> g) by (intros ->; apply Ng; apply in_or_app; left; assumption). eqb_simp. reflexivity.
+      * eapply repc_ext; [|exact RC]. intros j Hj. rewrite hget_set_left.
+        assert (j <> g) by (intros ->; apply Ng; apply in_or_app; right; assumption). eqb_simp. reflexivity.
+    + intros j Hj. rewrite hget_set_left. eqb_simp. reflexivity.
+  - split.
+    + split; [|split].
+      * rewrite hget_set_right. eqb_simp. rewrite Hg. reflexivity.
+      * eapply rep_ext; [|exact R1]. intros j Hj. rewrite hget_set_right.
+        assert (j <> g) by (intros ->; apply Ng; apply in_or_app; left; assumption). eqb_simp. reflexivity.
+      * eapply repc_ext; [|exact RC]. intros j Hj. rewrite hget_set_right.
+        assert (j <> g) by (intros ->; apply Ng; apply in_or_app; right; assumption). eqb_simp. reflexivity.
+    + intros j Hj. rewrite hget_set_right. eqb_simp. reflexivity.
+Qed.
+
+(* *pp = v / t->root = v *)
+Lemma set_pp_sim : forall h c n v, repc h c (Some n) -> ~ In n (cids c) -> NoDup (cids c) ->
+  let pp := match ctx_id c with Some g => Some (g, ptr_is (left h g) n) | None => None end in
+  repc (fst (set_pp h (ctx_root c (Some n)) pp v)) c v /\
+  snd (set_pp h (ctx_root c (Some n)) pp v) = ctx_root c v /\
+  (forall j, ctx_id c <> Some j -> hget (fst (set_pp h (ctx_root c (Some n)) pp v)) j = hget h j) /\
+  match pp with Some (_, true) => 1 | Some (_, false) => -1 | None => 0 end =
+    match c with Top => 0 | _ => dbal_of c (-1) end.
+Proof.
+  intros h c n v RC NI ND. destruct (ctx_id c) as [g|] eqn:Eg.
+  - destruct (repc_set_hole h c n v g RC NI ND Eg) as (A & B). cbn zeta in *.
+    rewrite (child_link h c n g RC NI Eg) in *.
+    destruct c as [|g' d b r c|g' d b l c]; cbn [ctx_id] in Eg; [discriminate| |]; inversion Eg; subst g';
+      cbn [set_pp fst snd ctx_root dbal_of]; (split; [exact A|]); (split; [reflexivity|]); (split; [|reflexivity]);
+      intros j Hj; apply B; congruence.
+  - destruct c; cbn in Eg; try discriminate. cbn. repeat split; auto.
+Qed.
+
+Lemma clen_le_cids : forall c, (clen c <= length (cids c))%nat.
+Proof. induction c as [|i d b r c IH|i d b l c IH]; cbn [clen cids length]; [lia| |]; rewrite app_length; lia. Qed.
+
+Lemma remove_finish : forall st fs n cc t hK rtK dbal,
+  Rep st fs -> NoDup (ids (root fs)) -> size fs = count (root fs) ->
+  NoDup (ids t ++ cids cc) -> rep hK t (ctx_id cc) -> repc hK cc (root_id t) ->
+  avl t -> avlc cc (height t + 1) -> rtK = ctx_root cc (root_id t) ->
+  (ctx_id cc <> None -> dbal = dbal_of cc (-1)) ->
+  (forall j, In j (ids t ++ cids cc) <-> In j (ids (root fs)) /\ j <> n) ->
+  (forall j, ~ In j (ids (root fs)) -> hget hK j = hget (hp st) j) ->
+  exists h', h_rem_retrace (fuel_of st) hK rtK (ctx_id cc) dbal [] =
+               Some (h', root_id (fst (fst (up_del cc t (-1) []))), snd (up_del cc t (-1) [])) /\
+             Rep (mkH (hdel h' n) (root_id (fst (fst (up_del cc t (-1) [])))) (hsize st - 1) (hnextid st))
+                 (mkState (fst (fst (up_del cc t (-1) []))) (size fs - 1) (nextid fs)).
+Proof.
+  intros st fs n cc t hK rtK dbal (R & Hroot & Hsize & Hnext & Dom) ND Sz NDt Rt RCt At ACt Hrt DB IN FR.
+  assert (FU : (clen cc <= fuel_of st)%nat).
+  { unfold fuel_of. rewrite Hsize, Sz, count_length. rewrite Nat2Z.id.
+    pose proof (clen_le_cids cc).
+    assert (length (ids t ++ cids cc) <= length (ids (root fs)))%nat.
+    { apply NoDup_incl_length; [assumption|]. intros j Hj. apply IN in Hj. tauto. }
+    rewrite app_length in H0.
+    assert (length (ids (root fs)) = length (elems (root fs))) by (unfold ids; apply map_length). lia. }
+  destruct (h_rem_retrace_sim cc t (-1) [] hK rtK (fuel_of st) dbal NDt Rt RCt At) as (h' & E1 & R' & Fr).
+  { replace (height t - -1) with (height t + 1) by lia. assumption. }
+  { right. reflexivity. }
+  { assumption. }
+  { assumption. }
+  { assumption. }
+  exists h'. split; [exact E1|].
+  pose proof (up_del_perm cc t (-1) []) as PM.
+  set (T' := fst (fst (up_del cc t (-1) []))) in *.
+  assert (IN' : forall j, In j (ids T') <-> In j (ids (root fs)) /\ j <> n).
+  { intros j. rewrite <- IN. split; intros X.
+    - eapply Permutation_in; [exact PM|exact X].
+    - eapply Permutation_in; [apply Permutation_sym; exact PM|exact X]. }
+  unfold Rep. cbn [hp hroot hsize hnextid root size nextid]. split; [|split; [reflexivity|split; [lia|split; [assumption|]]]].
+  - eapply rep_ext; [|exact R']. intros j Hj. rewrite hget_hdel. apply IN' in Hj. destruct Hj as [_ Hj].
+    eqb_simp. reflexivity.
+  - intros j Hj. rewrite hget_hdel in Hj. destruct (j =? n) eqn:C; [congruence|].
+    destruct (in_dec Z.eq_dec j (ids T')) as [Y|N]; [assumption|]. exfalso.
+    assert (NI : ~ In j (ids t ++ cids cc)).
+    { intros X. apply N. eapply Permutation_in; [apply Permutation_sym; exact PM|exact X]. }
+    rewrite (Fr j NI) in Hj.
+    destruct (in_dec Z.eq_dec j (ids (root fs))) as [Y2|N2].
+    + apply NI. apply IN. split; [assumption|lia].
+    + rewrite (FR j N2) in Hj. apply N2. apply Dom. assumption.
+Qed.
+
+Lemma ctx_root_in : forall c x, ctx_id c <> None -> exists g, ctx_root c x = Some g /\ In g (cids c).
+Proof.
+  induction c as [|i d b r c IH|i d b l c IH]; intros x H; cbn [ctx_id ctx_root cids] in *; [congruence| |].
+  - destruct c as [|i2 d2 b2 r2 c2|i2 d2 b2 l2 c2].
+    + exists i. split; [reflexivity|left; reflexivity].
+    + destruct (IH (Some i)) as (g & A & B); [discriminate|]. exists g. split; [exact A|]. right. apply in_or_app. right. exact B.
+    + destruct (IH (Some i)) as (g & A & B); [discriminate|]. exists g. split; [exact A|]. right. apply in_or_app. right. exact B.
+  - destruct c as [|i2 d2 b2 r2 c2|i2 d2 b2 l2 c2].
+    + exists i. split; [reflexivity|left; reflexivity].
+    + destruct (IH (Some i)) as (g & A & B); [discriminate|]. exists g. split; [exact A|]. right. apply in_or_app. right. exact B.
+    + destruct (IH (Some i)) as (g & A & B); [discriminate|]. exists g. split; [exact A|]. right. apply in_or_app. right. exact B.
+Qed.
+
+(* what is known about the node to remove and its surroundings *)
+Record located (st : hstate) (fs : state) (n : Z) (c : ctx) (d : elt) (b : Z) (l r : tree) : Prop := {
+  loc_root : root fs = plug c (N n d b l r);
+  loc_hn : hget (hp st) n = Some (mkNode d b (ctx_id c) (root_id l) (root_id r));
+  loc_rl : rep (hp st) l (Some n);
+  loc_rr : rep (hp st) r (Some n);
+  loc_rc : repc (hp st) c (Some n);
+  loc_nd : NoDup (ids l ++ n :: ids r ++ cids c);
+  loc_al : avl l; loc_ar : avl r; loc_b : b = height r - height l; loc_rb : -1 <= b <= 1;
+  loc_ac : avlc c (1 + Z.max (height l) (height r));
+  loc_hroot : hroot st = ctx_root c (Some n);
+  loc_in : forall j, In j (ids (root fs)) <-> In j (ids l) \/ j = n \/ In j (ids r) \/ In j (cids c) }.
+
+Lemma locate : forall st fs n, Rep st fs -> avl (root fs) -> NoDup (ids (root fs)) -> In n (ids (root fs)) ->
+  exists c d b l r, located st fs n c d b l r.
+Proof.
+  intros st fs n (R & Hroot & _) A ND IN.
+  destruct (in_ids_split _ _ IN) as (c & d & b & l & r & HT).
+  rewrite HT in R, A, ND, Hroot. apply rep_plug in R. destruct R as (Rn & RC).
+  apply nodup_plug in ND. apply avl_plug in A. destruct A as (An & AC).
+  cbn [rep] in Rn. destruct Rn as (Hn & Rl & Rr). cbn [avl] in An. destruct An as (Al & Ar & Hb & Rb).
+  exists c, d, b, l, r. constructor; try assumption.
+  - rewrite ids_N in ND. rewrite <- app_assoc in ND. exact ND.
+  - rewrite root_id_plug in Hroot. exact Hroot.
+  - intros j. rewrite HT. rewrite in_ids_plug. rewrite ids_N. rewrite in_app_iff. cbn [In].
+    intuition congruence.
+Qed.
+
+(* replacing n by its only child ch (or by nothing), then retracing *)
+Lemma splice_sim : forall st fs n c d b l r ch h2 rt1 dbal,
+  Rep st fs -> NoDup (ids (root fs)) -> size fs = count (root fs) ->
+  located st fs n c d b l r ->
+  (ch = l /\ r = E \/ ch = r /\ l = E) ->
+  rep h2 ch (ctx_id c) -> repc h2 c (root_id ch) -> rt1 = ctx_root c (root_id ch) ->
+  (ctx_id c <> None -> dbal = dbal_of c (-1)) ->
+  (forall j, ~ In j (ids (root fs)) -> hget h2 j = hget (hp st) j) ->
+  exists h', h_rem_retrace (fuel_of st) h2 rt1 (ctx_id c) dbal [] =
+               Some (h', root_id (fst (fst (up_del c ch (-1) []))), snd (up_del c ch (-1) [])) /\
+             Rep (mkH (hdel h' n) (root_id (fst (fst (up_del c ch (-1) [])))) (hsize st - 1) (hnextid st))
+                 (mkState (fst (fst (up_del c ch (-1) []))) (size fs - 1) (nextid fs)) /\
+             rem n (root fs) = Some (up_del c ch (-1) [], d).
+Proof.
+  intros st fs n c d b l r ch h2 rt1 dbal RP ND Sz L CH R2 RC2 Hrt DB FR.
+  destruct L as [HT Hn Rl Rr RC NDl Al Ar Hb Rb AC Hroot IN].
+  assert (NDch : NoDup (ids ch ++ cids c)).
+  { destruct CH as [[-> ->]|[-> ->]]; change (ids E) with (@nil Z) in NDl; cbn [app] in NDl; nd_sub NDl. }
+  assert (Ach : avl ch) by (destruct CH as [[-> ->]|[-> ->]]; assumption).
+  assert (ACch : avlc c (height ch + 1)).
+  { destruct CH as [[-> ->]|[-> ->]]; cbn [height] in AC.
+    - pose proof (height_nonneg l). replace (height l + 1) with (1 + Z.max (height l) 0) by lia. assumption.
+    - pose proof (height_nonneg r). replace (height r + 1) with (1 + Z.max 0 (height r)) by lia. assumption. }
+  assert (INch : forall j, In j (ids ch ++ cids c) <-> In j (ids (root fs)) /\ j <> n).
+  { intros j. rewrite IN. rewrite in_app_iff.
+    assert (Nl : In j (ids l) -> j <> n) by (intros X; nd_neq NDl).
+    assert (Nr : In j (ids r) -> j <> n) by (intros X; nd_neq NDl).
+    assert (Nc : In j (cids c) -> j <> n) by (intros X; nd_neq NDl).
+    destruct CH as [[-> ->]|[-> ->]]; cbn [ids elems map In]; tauto. }
+  destruct (remove_finish st fs n c ch h2 rt1 dbal RP ND Sz NDch R2 RC2 Ach ACch Hrt DB INch FR) as (h' & E1 & RP').
+  exists h'. split; [exact E1|]. split; [exact RP'|].
+  rewrite HT. apply rem_at.
+  - intros X. nd_absurd NDl n.
+  - unfold delete_here. destruct CH as [[-> ->]|[-> ->]].
+    + destruct l; reflexivity.
+    + destruct r; reflexivity.
+Qed.
+
+(* unlinking the leftmost node m of t when m is not the root of t:
+   replace->parent->left = replace->right; if (replace->right) replace->right->parent = replace->parent *)
+Lemma unlink_inner : forall t h par m ym,
+  NoDup (ids t) -> rep h t par -> leftmost t = Some m -> root_id t <> Some m -> right h m = ym ->
+  exists k, parent h m = Some k /\ In k (ids t) /\ k <> m /\ ptr_is (left h k) m = true /\
+    let h1 := set_left h k ym in
+    let h2 := match ym with Some y => set_parent h1 y (Some k) | None => h1 end in
+    rep h2 (unmin t) par /\ root_id (unmin t) = root_id t /\
+    (forall j, ~ In j (ids t) -> hget h2 j = hget h j) /\ hget h2 m = hget h m /\
+    (forall j, In j (ids (unmin t)) <-> In j (ids t) /\ j <> m) /\
+    (forall i, root_id t = Some i -> hget h2 i = option_map (fun nd => if ptr_is (nleft nd) m then w_left ym nd else nd) (hget h i)).
+Proof.
+  induction t as [|z dz bz lz IHl rz _]; intros h par m ym ND R LM NR RM; [discriminate|].
+  cbn [rep] in R. destruct R as (Hz & Rlz & Rrz). rewrite ids_N in ND.
+  destruct lz as [|z2 dz2 bz2 lz2 rz2]; [cbn in LM, NR; congruence|].
+  destruct lz2 as [|z3 dz3 bz3 lz3 rz3].
+  - (* m = z2 is the left child of z *)
+    cbn in LM. inversion LM. subst z2. clear LM.
+    cbn [rep root_id] in Rlz. destruct Rlz as (Hm & _ & Rrz2).
+    unfold right in RM. rewrite Hm in RM. cbn [nright] in RM. subst ym.
+    rewrite ids_N in ND. change (ids E) with (@nil Z) in ND. cbn [app] in ND.
+    assert (Nzm : z <> m) by nd_neq ND.
+    exists z. split; [unfold parent; rewrite Hm; reflexivity|]. split; [rewrite ids_N; in_tauto|]. split; [assumption|].
+    split; [unfold left; rewrite Hz; cbn [nleft root_id]; apply ptr_is_refl|].
+    cbn zeta. cbn [unmin root_id].
+    set (h1 := set_left h z (root_id rz2)).
+    assert (G1 : forall j, hget h1 j = if j =? z then Some (mkNode dz bz par (root_id rz2) (root_id rz)) else hget h j).
+    { intros j. subst h1. rewrite hget_set_left. rewrite Hz. reflexivity. }
+    destruct rz2 as [|y dy by_ ly ry].
+    + cbn [root_id] in *. split; [|split; [reflexivity|split; [|split; [|split]]]].
+      * cbn [rep root_id]. repeat split.
+        -- rewrite G1. eqb_simp. reflexivity.
+        -- eapply rep_ext; [|exact Rrz]. intros j Hj. rewrite G1. assert (j <> z) by nd_neq ND. eqb_simp. reflexivity.
+      * intros j Hj. rewrite G1. rewrite !ids_N in Hj. assert (j <> z) by (intros ->; apply Hj; in_tauto). eqb_simp. reflexivity.
+      * rewrite G1. eqb_simp. reflexivity.
+      * intros j. rewrite !ids_N. change (ids E) with (@nil Z). cbn [app].
+        assert (In j (ids rz) -> j <> m) by (intros X; nd_neq ND).
+        repeat first [rewrite in_app_iff | progress cbn [In]]. intuition congruence.
+      * intros i Hi. inversion Hi. subst i. rewrite G1. eqb_simp. rewrite Hz. cbn [option_map nleft]. rewrite ptr_is_refl. reflexivity.
+    + cbn [root_id] in *. cbn [rep root_id] in Rrz2. destruct Rrz2 as (Hy & Rly & Rry). rewrite ids_N in ND.
+      assert (Nyz : y <> z) by nd_neq ND.
+      assert (G2 : forall j, hget (set_parent h1 y (Some z)) j =
+                 if j =? y then Some (mkNode dy by_ (Some z) (root_id ly) (root_id ry)) else hget h1 j).
+      { intros j. rewrite hget_set_parent. rewrite G1. eqb_simp. rewrite Hy. reflexivity. }
+      split; [|split; [reflexivity|split; [|split; [|split]]]].
+      * cbn [rep root_id]. repeat split.
+        -- rewrite G2, G1. eqb_simp. reflexivity.
+        -- rewrite G2. eqb_simp. reflexivity.
+        -- eapply rep_ext; [|exact Rly]. intros j Hj. rewrite G2, G1.
+           assert (j <> y) by nd_neq ND. assert (j <> z) by nd_neq ND. eqb_simp. reflexivity.
+        -- eapply rep_ext; [|exact Rry]. intros j Hj. rewrite G2, G1.
+           assert (j <> y) by nd_neq ND. assert (j <> z) by nd_neq ND. eqb_simp. reflexivity.
+        -- eapply rep_ext; [|exact Rrz]. intros j Hj. rewrite G2, G1.
+           assert (j <> y) by nd_neq ND. assert (j <> z) by nd_neq ND. eqb_simp. reflexivity.
+      * intros j Hj. rewrite G2, G1. rewrite !ids_N in Hj.
+        assert (j <> z) by (intros ->; apply Hj; in_tauto). assert (j <> y) by (intros ->; apply Hj; in_tauto).
+        eqb_simp. reflexivity.
+      * rewrite G2, G1. assert (m <> y) by nd_neq ND. eqb_simp. reflexivity.
+      * intros j. rewrite !ids_N. change (ids E) with (@nil Z). cbn [app].
+        assert (In j (ids rz) -> j <> m) by (intros X; nd_neq ND).
+        assert (In j (ids ly) -> j <> m) by (intros X; nd_neq ND).
+        assert (In j (ids ry) -> j <> m) by (intros X; nd_neq ND).
+        assert (y <> m) by nd_neq ND.
+        repeat first [rewrite in_app_iff | progress cbn [In]]. intuition congruence.
+      * intros i Hi. inversion Hi. subst i. rewrite G2, G1. eqb_simp. rewrite Hz. cbn [option_map nleft]. rewrite ptr_is_refl. reflexivity.
+  - (* m is deeper *)
+    remember (N z3 dz3 bz3 lz3 rz3) as lz2 eqn:E2.
+    assert (NDl : NoDup (ids (N z2 dz2 bz2 lz2 rz2))) by (apply NoDup_app_inv in ND; tauto).
+    assert (LM2 : leftmost (N z2 dz2 bz2 lz2 rz2) = Some m) by (rewrite E2 in *; exact LM).
+    assert (Im : In m (ids lz2)).
+    { apply leftmost_in. rewrite E2 in *. cbn [leftmost] in LM2. cbn [leftmost]. exact LM2. }
+    assert (NR2 : root_id (N z2 dz2 bz2 lz2 rz2) <> Some m).
+    { cbn [root_id]. intros X. inversion X. subst z2. rewrite ids_N in NDl. nd_absurd NDl m. }
+    destruct (IHl h (Some z) m ym NDl Rlz LM2 NR2 RM) as (k & Pk & Ik & Nkm & PL & IH).
+    cbn zeta in IH. destruct IH as (R2 & RI & F2 & M2 & IN2 & RT2).
+    exists k. split; [assumption|]. split; [rewrite ids_N; in_tauto|]. split; [assumption|]. split; [assumption|].
+    cbn zeta.
+    set (h2 := match ym with Some y => set_parent (set_left h k ym) y (Some k) | None => set_left h k ym end) in *.
+    assert (UM : unmin (N z dz bz (N z2 dz2 bz2 lz2 rz2) rz) = N z dz bz (unmin (N z2 dz2 bz2 lz2 rz2)) rz) by reflexivity.
+    rewrite UM. clear UM.
+    assert (Hz2 : hget h2 z = hget h z).
+    { apply F2. intros X. nd_absurd ND z. }
+    split; [|split; [reflexivity|split; [|split; [assumption|split]]]].
+    + cbn [rep]. rewrite RI. repeat split.
+      * rewrite Hz2. exact Hz.
+      * exact R2.
+      * eapply rep_ext; [|exact Rrz]. intros j Hj. apply F2. intros X. nd_absurd ND j.
+    + intros j Hj. apply F2. intros X. apply Hj. rewrite ids_N. in_tauto.
+    + intros j. rewrite !(ids_N z). rewrite !in_app_iff. cbn [In]. rewrite IN2.
+      assert (Im2 : In m (ids (N z2 dz2 bz2 lz2 rz2))) by (rewrite ids_N; in_tauto).
+      assert (In j (ids rz) -> j <> m) by (intros X; nd_neq ND).
+      assert (z <> m) by nd_neq ND. intuition congruence.
+    + intros i Hi. cbn in Hi. inversion Hi. subst i. rewrite Hz2, Hz. cbn [option_map nleft root_id].
+      rewrite ptr_is_false; [reflexivity|]. exact NR2.
 Qed.
